@@ -706,7 +706,7 @@ class Interp(object):
                         return AV.const(1 if v.lo != 0 else 0)      # null pointer constant / integer-valued pointer
                     raise Unsupported('pointer of unknown nullness at %s' % fn.loc(i))
                 return AV.const(1)      # address of a modelled object
-            if cast in ('NoOp', 'BitCast', 'FunctionToPointerDecay', 'UserDefinedConversion', 'ConstructorConversion', 'DerivedToBase', 'UncheckedDerivedToBase', 'NullToPointer'):
+            if cast in ('NoOp', 'BitCast', 'FunctionToPointerDecay', 'UserDefinedConversion', 'ConstructorConversion', 'DerivedToBase', 'UncheckedDerivedToBase', 'BaseToDerived', 'NullToPointer'):
                 return self.eval(fn, n['ch'][0], env)
             raise Unsupported('cast %s at %s' % (cast, fn.loc(i)))
         if k == 'DeclRefExpr':
